@@ -119,7 +119,7 @@ func c19RunVC[N uint32 | uint64](kv map[string]string, body string) string {
 func c19Run(line string) string {
 	hdr, body, _ := strings.Cut(line, "|")
 	f := strings.Fields(hdr)
-	if len(f) > 0 && f[0] == "just" {
+	if len(f) > 0 && (f[0] == "just" || f[0] == "justl") {
 		return c19RunJ(line)
 	}
 	if len(f) == 0 || (f[0] != "vc" && f[0] != "vcl") {
@@ -154,6 +154,6 @@ func c19Gen(r *vhRng) string {
 }
 
 func TestVerifC19(t *testing.T) {
-	c19OwnLines("vc", "vcl", "just")
+	c19OwnLines("vc", "vcl", "just", "justl")
 	vhMain(t, c19Gen, c19Run)
 }
